@@ -13,8 +13,11 @@ Rules == {"fill", "extend", "periodic"}
 Min2(x, y) == IF x < y THEN x ELSE y
 Max2(x, y) == IF x < y THEN y ELSE x
 \* lower = value at coordinate c-1, upper = value at c+1
-Comb(op, lower, upper) == CASE op = "diff" -> upper - lower [] op = "interp" -> upper + lower
-                            [] op = "min" -> Min2(lower, upper) [] op = "max" -> Max2(lower, upper)
+\* a missing value (NaN) is carried as the distinguished integer NaNv; every one of the four operators hands it on
+NaNv == 2147483641
+Comb(op, lower, upper) == IF lower = NaNv \/ upper = NaNv THEN NaNv
+                          ELSE CASE op = "diff" -> upper - lower [] op = "interp" -> upper + lower
+                                 [] op = "min" -> Min2(lower, upper) [] op = "max" -> Max2(lower, upper)
 
 ------------------------------------------------------------------------------
 \* Declarative layer: neighbours by coordinate
